@@ -91,6 +91,9 @@ type LCfg struct {
 	// SiblingDials: before the first Sign that other TLS client completes a TLS handshake of its own with every
 	// endpoint whose certificate its bundle accepts (a process talks to more than one service)
 	SiblingDials bool `json:"sibling_dials,omitempty"`
+	// ClientExpires: the configured client certificate is valid when the signer is built and lapses on
+	// 2030-01-01; with a long pause between two Sign calls the second one happens after that instant
+	ClientExpires bool `json:"client_expires,omitempty"`
 }
 
 // LBackoff is one direct evaluation of the retry back-off.
@@ -114,6 +117,9 @@ type LPlan struct {
 }
 
 const port = 4443
+
+// clientLapse is when an expiring client certificate (Cfg.ClientExpires) lapses.
+var clientLapse = time.Date(2030, 1, 1, 0, 0, 0, 0, time.UTC)
 
 func hostOf(name string) string { return strings.TrimPrefix(name, "passthrough:///") }
 
@@ -167,6 +173,8 @@ func getSigner(p *LPlan) *signerEnt {
 		inter := newIntermediate(clientCA, "client-intermediate")
 		cl = issue(inter, "ra-client-chained", []string{"ra.sim"}, longBefore, longAfter, true)
 		cl.Certificate = append(cl.Certificate, inter.der)
+	} else if p.Cfg.ClientExpires {
+		cl = issue(clientCA, "ra-client-expiring", []string{"ra.sim"}, longBefore, clientLapse, true)
 	} else {
 		cl = issue(clientCA, "ra-client", []string{"ra.sim"}, longBefore, longAfter, true)
 	}
@@ -263,6 +271,8 @@ type network struct {
 	client [][]byte
 	viol   []string
 	call   int // index of the Sign call in progress
+	// firstCert is the TLS certificate of endpoint 0 (for impostors that present the same one)
+	firstCert *tls.Certificate
 }
 
 // dialMode is the endpoint's dial behaviour during the given Sign call.
@@ -484,7 +494,7 @@ func tlsVersions(max string) (uint16, uint16) {
 	return tls.VersionTLS10, tls.VersionTLS13
 }
 
-func (n *network) startEndpoint(i int, e *LEndpoint, clientCA *ca, clientChain bool, firstHost string) *epState {
+func (n *network) startEndpoint(i int, e *LEndpoint, clientCA *ca, clientChain bool, firstHost string, longLived bool) *epState {
 	host := hostOf(e.Name)
 	now := time.Now()
 	var cert tls.Certificate
@@ -493,8 +503,18 @@ func (n *network) startEndpoint(i int, e *LEndpoint, clientCA *ca, clientChain b
 	switch e.Identity {
 	case "genuine":
 		cert = issue(issuer, label, []string{host}, now.Add(-24*time.Hour), now.Add(365*24*time.Hour), false)
+		if longLived {
+			cert = issue(issuer, label, []string{host}, longBefore, longAfter, false)
+		}
 	case "other_ca":
 		cert = issue(newCA("foreign-ca"), label, []string{host}, now.Add(-24*time.Hour), now.Add(365*24*time.Hour), false)
+	case "cert_of_first":
+		// presents the very certificate (and key) of the first endpoint: right for that name, wrong for this one
+		if first := n.firstCert; first != nil {
+			cert = *first
+		} else {
+			cert = issue(issuer, label, []string{firstHost}, now.Add(-24*time.Hour), now.Add(365*24*time.Hour), false)
+		}
 	case "named_as_first":
 		// a CA-issued certificate that names the FIRST endpoint of the list, presented by a later endpoint
 		cert = issue(issuer, label, []string{firstHost}, now.Add(-24*time.Hour), now.Add(365*24*time.Hour), false)
@@ -538,6 +558,10 @@ func (n *network) startEndpoint(i int, e *LEndpoint, clientCA *ca, clientChain b
 		pool := x509.NewCertPool()
 		pool.AddCert(newCA("unrelated-client-ca").cert)
 		cfg.ClientCAs = pool
+	}
+	if i == 0 {
+		c0 := cert
+		n.firstCert = &c0
 	}
 	ep := &epState{idx: i, spec: e, ln: bufconn.Listen(256 * 1024)}
 	ep.srv = grpc.NewServer(grpc.Creds(credentials.NewTLS(cfg)))
@@ -613,6 +637,7 @@ func execL(t *testing.T, raw json.RawMessage) *sim.Outcome {
 		evTo       int
 		base       []int // attempts per endpoint before the call
 		dialsStart []int
+		start      time.Time
 	}
 	var calls []callRec
 	allReturned := false
@@ -621,7 +646,7 @@ func execL(t *testing.T, raw json.RawMessage) *sim.Outcome {
 		clientCA := newCA("client-ca")
 		var eps []*epState
 		for i := range p.Endpoints {
-			eps = append(eps, n.startEndpoint(i, &p.Endpoints[i], clientCA, p.Cfg.ClientChain, hostOf(p.Endpoints[0].Name)))
+			eps = append(eps, n.startEndpoint(i, &p.Endpoints[i], clientCA, p.Cfg.ClientChain, hostOf(p.Endpoints[0].Name), p.Cfg.ClientExpires))
 		}
 		if p.Cfg.SiblingDials && ent.sibling != nil {
 			for i, e := range p.Endpoints {
@@ -666,6 +691,7 @@ func execL(t *testing.T, raw json.RawMessage) *sim.Outcome {
 			n.mu.Unlock()
 			ctx, cancel := context.WithTimeout(context.Background(), time.Duration(p.Cfg.ParentSec)*time.Second)
 			signStart := time.Now()
+			c.start = signStart
 			func() {
 				defer func() {
 					if r := recover(); r != nil {
@@ -779,9 +805,17 @@ func execL(t *testing.T, raw json.RawMessage) *sim.Outcome {
 					}
 				}
 			}
+			// a server that verifies client certificates refuses the RA's once it has lapsed
+			if p.Cfg.ClientExpires && ci > 0 && i == 0 && c.start.After(clientLapse) {
+				o.Probe("sign_after_client_certificate_lapsed")
+			}
+			lapsed := p.Cfg.ClientExpires && !c.start.Add(-time.Hour).Before(clientLapse) && e.ClientAuth == "require"
+			maybeLapsed := p.Cfg.ClientExpires && !c.start.Add(24*time.Hour).Before(clientLapse) && e.ClientAuth == "require"
 			switch {
-			case !authentic || e.dialMode(ci) == "refuse" || e.dialMode(ci) == "stall":
+			case !authentic || e.dialMode(ci) == "refuse" || e.dialMode(ci) == "stall" || lapsed:
 				class[i] = "bad"
+			case maybeLapsed:
+				class[i] = "maybe"
 			case (e.dialMode(ci) == "cut" && c.dialsStart[i] == 0) || e.dialMode(ci) == "slow":
 				// a cut connection may or may not be retried in time; latency may exceed the per-try timeout
 				class[i] = "maybe"
